@@ -1,6 +1,8 @@
 import Labella.Model.LayoutSpec
 import Labella.Proofs.LayoutSep
 import Labella.Proofs.DistributeLemmas
+import Labella.Proofs.EngineTLinks
+import Labella.Props.C06
 /-! # C04 — layering conserves labels and builds complete stub chains within capacity
 # C06 — a layout is a pure function of the labels and options
 
@@ -108,6 +110,384 @@ theorem overlap_splits (o : DOpts) (labels : List Label) (halg : o.algorithm = .
   rw [distribute_overlap o labels hne halg hnl, withStubs_length]
   apply overlapLayers_two _ _ _ _ _ _ hbig'
   rw [(sortIds_perm labels).length_eq, List.length_range]; exact h3
+
+
+/-! ### C04, the links: parent / child pointers of the stateful engine (`Model/EngineT.lean`) after a layout -/
+
+/-- the chain of a node: itself, its parent, its parent's parent, … (at most `n` steps) -/
+def chainOf (s : EngineT.Store) : Nat → Nat → List Nat   -- fuel, node id
+  | 0, i => [i]
+  | n + 1, i =>
+    match (EngineT.get s i).parent with
+    | some p => i :: chainOf s n p
+    | none => [i]
+
+/-- where the `child` links lead from a node (at most `n` steps): the node a stub ultimately stands for -/
+def childEnd (s : EngineT.Store) : Nat → Nat → Nat   -- fuel, node id
+  | 0, i => i
+  | n + 1, i =>
+    match (EngineT.get s i).child with
+    | some c => childEnd s n c
+    | none => i
+
+/-- `chainOf` starts at the node … -/
+theorem chainOf_head (s : EngineT.Store) (n i : Nat) : (chainOf s n i)[0]? = some i := by
+  cases n with
+  | zero => rfl
+  | succ n =>
+    rw [chainOf]
+    cases (EngineT.get s i).parent <;> rfl
+
+/-- … and every further entry is the `parent` of the entry before it -/
+theorem chainOf_parent (s : EngineT.Store) : ∀ (n i t q : Nat), (chainOf s n i)[t + 1]? = some q →
+    ∃ p, (chainOf s n i)[t]? = some p ∧ (EngineT.get s p).parent = some q := by
+  intro n
+  induction n with
+  | zero => intro i t q h; simp [chainOf] at h
+  | succ n ih =>
+    intro i t q h
+    rw [chainOf] at h ⊢
+    cases hp : (EngineT.get s i).parent with
+    | none => rw [hp] at h; simp at h
+    | some p0 =>
+      rw [hp] at h
+      simp only [List.getElem?_cons_succ] at h ⊢
+      cases t with
+      | zero =>
+        rw [chainOf_head] at h
+        exact ⟨i, rfl, by rw [hp, ← Option.some.inj h]⟩
+      | succ t =>
+        obtain ⟨p, h1, h2⟩ := ih p0 t q h
+        exact ⟨p, by simpa using h1, h2⟩
+
+/-- the chain continues as long as there is a parent and fuel -/
+theorem chainOf_next (s : EngineT.Store) : ∀ (n i t c x : Nat), (chainOf s n i)[t]? = some c →
+    (EngineT.get s c).parent = some x → t < n → (chainOf s n i)[t + 1]? = some x := by
+  intro n
+  induction n with
+  | zero => intro i t c x _ _ h; omega
+  | succ n ih =>
+    intro i t c x h hp ht
+    rw [chainOf] at h ⊢
+    cases hpi : (EngineT.get s i).parent with
+    | none =>
+      rw [hpi] at h
+      cases t with
+      | zero =>
+        simp only [List.getElem?_cons_zero, Option.some.injEq] at h
+        rw [h, hp] at hpi
+        cases hpi
+      | succ t => simp at h
+    | some p0 =>
+      rw [hpi] at h
+      simp only [List.getElem?_cons_succ]
+      cases t with
+      | zero =>
+        simp only [List.getElem?_cons_zero, Option.some.injEq] at h
+        rw [h, hp] at hpi
+        rw [← Option.some.inj hpi]
+        exact chainOf_head s n x
+      | succ t =>
+        simp only [List.getElem?_cons_succ] at h
+        exact ih p0 t c x h hp (by omega)
+
+/-- **What (a), (b), (c) of C04 say about the POINTER fields** of the store `s` after a layout that reported `layers`, for an
+engine with node list `nodes` and configured `stubWidth`. -/
+structure LinksOK (s : EngineT.Store) (layers : List (List Nat)) (nodes : List Nat) (stubWidth : Rat) : Prop where
+  /-- (a) no item is reported twice (within a layer or in two layers) -/
+  nodup : layers.flatten.Nodup
+  /-- (a) every engine node occurs in exactly one layer -/
+  node_layer : ∀ i ∈ nodes, ∃! k, i ∈ layers.getD k []
+  /-- (a) no other items: every item of every layer is an engine node (and no stub), or it is a stub, not an engine node, whose
+  `child` chain ends in an engine node -/
+  item : ∀ j, ∀ x ∈ layers.getD j [],
+    (x ∈ nodes ∧ EngineT.isStub s x = false) ∨
+    (x ∉ nodes ∧ EngineT.isStub s x = true ∧ childEnd s layers.length x ∈ nodes)
+  /-- (b) an engine node `i` found in layer `k` reports `layerIndex = k` and has no `child`; following `parent` from it gives
+  exactly `k` further nodes (`chainOf` with fuel `k` has `k + 1` entries and more fuel does not make it longer); the entry `p`
+  at position `t` is an item of layer `k - t`, reports that layer, carries the data position and payload of `i`; the last one
+  (`t = k`, in the axis layer) has no `parent`; every one but `i` itself (`0 < t`) is a stub of the configured width whose `child`
+  is the entry before it -/
+  chain : ∀ i ∈ nodes, ∀ k, i ∈ layers.getD k [] →
+    (EngineT.get s i).layerIndex = k ∧ (EngineT.get s i).child = none ∧
+    (chainOf s k i).length = k + 1 ∧ (∀ n, k ≤ n → chainOf s n i = chainOf s k i) ∧
+    ∀ t p, (chainOf s k i)[t]? = some p →
+      p ∈ layers.getD (k - t) [] ∧ (EngineT.get s p).layerIndex = k - t ∧
+      (EngineT.get s p).ideal = (EngineT.get s i).ideal ∧ (EngineT.get s p).data = (EngineT.get s i).data ∧
+      (t = k → (EngineT.get s p).parent = none) ∧
+      (0 < t → (EngineT.get s p).child = (chainOf s k i)[t - 1]? ∧ EngineT.isStub s p = true ∧
+        (EngineT.get s p).width = stubWidth)
+  /-- (c) conversely a stub item `x` of layer `j` is the entry at some position `t > 0` of the chain of the engine node its
+  `child` chain ends in (which lies in layer `j + t`), and of no other engine node's chain -/
+  owner : ∀ j, ∀ x ∈ layers.getD j [], EngineT.isStub s x = true →
+    (∃ t, 0 < t ∧ childEnd s layers.length x ∈ layers.getD (j + t) [] ∧
+      (chainOf s (j + t) (childEnd s layers.length x))[t]? = some x) ∧
+    (∀ i ∈ nodes, ∀ k t : Nat, i ∈ layers.getD k [] → (chainOf s k i)[t]? = some x → i = childEnd s layers.length x)
+
+/-- (c) in the `∃!` form: a stub item is in the chain of exactly one engine node -/
+theorem LinksOK.owner_unique {s : EngineT.Store} {layers : List (List Nat)} {nodes : List Nat} {sw : Rat}
+    (h : LinksOK s layers nodes sw) (j x : Nat) (hx : x ∈ layers.getD j []) (hs : EngineT.isStub s x = true) :
+    ∃! i, i ∈ nodes ∧ ∃ k t : Nat, i ∈ layers.getD k [] ∧ (chainOf s k i)[t]? = some x := by
+  obtain ⟨⟨t, _, h1, h2⟩, h3⟩ := h.owner j x hx hs
+  rcases h.item j x hx with ⟨_, hns⟩ | ⟨_, _, hin⟩
+  · rw [hs] at hns; cases hns
+  · exact ⟨_, ⟨hin, _, _, h1, h2⟩, fun i' ⟨hi', k, t', hk, hc⟩ => h3 i' hi' k t' hk hc⟩
+
+/-- the statement depends on the node list only through membership (algorithm `none` sorts the engine's list in place) -/
+theorem LinksOK.congr {s : EngineT.Store} {layers : List (List Nat)} {nodes nodes' : List Nat} {sw : Rat}
+    (h : LinksOK s layers nodes sw) (hm : ∀ i, i ∈ nodes' ↔ i ∈ nodes) : LinksOK s layers nodes' sw where
+  nodup := h.nodup
+  node_layer i hi := h.node_layer i ((hm i).1 hi)
+  item j x hx := by
+    rcases h.item j x hx with ⟨a, b⟩ | ⟨a, b, c⟩
+    · exact Or.inl ⟨(hm x).2 a, b⟩
+    · exact Or.inr ⟨fun hc => a ((hm x).1 hc), b, (hm _).2 c⟩
+  chain i hi := h.chain i ((hm i).1 hi)
+  owner j x hx hs := ⟨(h.owner j x hx hs).1, fun i hi => (h.owner j x hx hs).2 i ((hm i).1 hi)⟩
+
+section derive
+open EngineT in
+/-- the chain of ANY item of layer `k` (label or stub), from the local description -/
+theorem chain_of_local {s : EngineT.Store} {layers : List (List Nat)} {nodes : List Nat} {sw : Rat}
+    (L : EngineT.LocalLinks s layers nodes sw) : ∀ (k x : Nat), x ∈ layers.getD k [] →
+    (chainOf s k x).length = k + 1 ∧ (∀ n, k ≤ n → chainOf s n x = chainOf s k x) ∧
+    ∀ t p, (chainOf s k x)[t]? = some p →
+      p ∈ layers.getD (k - t) [] ∧
+      (get s p).ideal = (get s x).ideal ∧ (get s p).data = (get s x).data ∧
+      (t = k → (get s p).parent = none) ∧
+      (0 < t → (get s p).child = (chainOf s k x)[t - 1]? ∧ isStub s p = true ∧ (get s p).width = sw) := by
+  intro k
+  induction k with
+  | zero =>
+    intro x hx
+    have hroot := L.root x hx
+    refine ⟨rfl, ?_, ?_⟩
+    · intro n _
+      cases n with
+      | zero => rfl
+      | succ n => rw [chainOf, chainOf, hroot]
+    · intro t p h
+      cases t with
+      | zero =>
+        simp only [chainOf, List.getElem?_cons_zero, Option.some.injEq] at h
+        subst h
+        exact ⟨hx, rfl, rfl, fun _ => hroot, fun h0 => absurd h0 (Nat.lt_irrefl 0)⟩
+      | succ t => simp [chainOf] at h
+  | succ k ih =>
+    intro x hx
+    obtain ⟨p0, hp0, hpar, hch, hid, hda, hwi⟩ := L.up k x hx
+    obtain ⟨i1, i2, i3⟩ := ih p0 hp0
+    have hce : chainOf s (k + 1) x = x :: chainOf s k p0 := by rw [chainOf, hpar]
+    refine ⟨by rw [hce, List.length_cons, i1], ?_, ?_⟩
+    · intro n hn
+      obtain ⟨n', rfl⟩ : ∃ n', n = n' + 1 := ⟨n - 1, by omega⟩
+      rw [hce, chainOf, hpar]
+      simp only
+      rw [i2 n' (by omega)]
+    · intro t p h
+      rw [hce] at h ⊢
+      cases t with
+      | zero =>
+        simp only [List.getElem?_cons_zero, Option.some.injEq] at h
+        subst h
+        exact ⟨hx, rfl, rfl, fun h0 => by omega, fun h0 => absurd h0 (Nat.lt_irrefl 0)⟩
+      | succ t =>
+        simp only [List.getElem?_cons_succ] at h
+        obtain ⟨j1, j2, j3, j4, j5⟩ := i3 t p h
+        refine ⟨by rw [Nat.succ_sub_succ]; exact j1, by rw [j2, hid], by rw [j3, hda], fun h0 => j4 (by omega), fun _ => ?_⟩
+        cases t with
+        | zero =>
+          rw [chainOf_head] at h
+          have : p = p0 := (Option.some.inj h).symm
+          subst this
+          refine ⟨by simpa using hch, ?_, hwi⟩
+          unfold isStub
+          rw [hch]; rfl
+        | succ t =>
+          obtain ⟨j6, j7, j8⟩ := j5 (Nat.succ_pos t)
+          exact ⟨by simpa using j6, j7, j8⟩
+
+open EngineT in
+/-- following `child` from an item of layer `j` ends, after `t` steps, in an item of layer `j + t` without `child`, whose chain
+has the item at position `t` -/
+theorem childEnd_of_local {s : EngineT.Store} {layers : List (List Nat)} {nodes : List Nat} {sw : Rat}
+    (L : EngineT.LocalLinks s layers nodes sw) : ∀ (n j x : Nat), x ∈ layers.getD j [] → layers.length ≤ j + n + 1 →
+    ∃ t, childEnd s n x ∈ layers.getD (j + t) [] ∧ (get s (childEnd s n x)).child = none ∧
+      (chainOf s (j + t) (childEnd s n x))[t]? = some x ∧ (t = 0 ↔ (get s x).child = none) := by
+  intro n
+  induction n with
+  | zero =>
+    intro j x hx hlen
+    have hnone : (get s x).child = none := by
+      cases hc : (get s x).child with
+      | none => rfl
+      | some c =>
+        have := lt_length_of_mem_getD (L.down j x hx c hc).1
+        omega
+    exact ⟨0, hx, hnone, chainOf_head s _ _, by simp [hnone]⟩
+  | succ n ih =>
+    intro j x hx hlen
+    cases hc : (get s x).child with
+    | none =>
+      have : childEnd s (n + 1) x = x := by rw [childEnd, hc]
+      rw [this]
+      exact ⟨0, hx, hc, chainOf_head s _ _, by simp⟩
+    | some c =>
+      have : childEnd s (n + 1) x = childEnd s n c := by rw [childEnd, hc]
+      rw [this]
+      obtain ⟨hc1, hc2⟩ := L.down j x hx c hc
+      obtain ⟨t, h1, h2, h3, _⟩ := ih (j + 1) c hc1 (by omega)
+      have e : j + 1 + t = j + (t + 1) := by omega
+      rw [e] at h1 h3
+      exact ⟨t + 1, h1, h2, chainOf_next s _ _ t c x h3 hc2 (by omega), by simp⟩
+
+open EngineT in
+/-- an item at position `t` of the chain of a childless item `i` leads back to `i` along `child` -/
+theorem childEnd_chain {s : EngineT.Store} {layers : List (List Nat)} {nodes : List Nat} {sw : Rat}
+    (L : EngineT.LocalLinks s layers nodes sw) (k i : Nat) (hi : i ∈ layers.getD k []) (hch : (get s i).child = none) :
+    ∀ (t x : Nat), (chainOf s k i)[t]? = some x → ∀ n, t ≤ n → childEnd s n x = i := by
+  obtain ⟨_, _, c3⟩ := chain_of_local L k i hi
+  intro t
+  induction t with
+  | zero =>
+    intro x h n _
+    rw [chainOf_head] at h
+    have : x = i := (Option.some.inj h).symm
+    subst this
+    cases n with
+    | zero => rfl
+    | succ n => rw [childEnd, hch]
+  | succ t ih =>
+    intro x h n hn
+    obtain ⟨_, _, _, _, h5⟩ := c3 (t + 1) x h
+    obtain ⟨h6, _, _⟩ := h5 (Nat.succ_pos t)
+    simp only [Nat.add_sub_cancel] at h6
+    obtain ⟨p, hp, _⟩ := chainOf_parent s k i t x h
+    rw [hp] at h6
+    obtain ⟨n', rfl⟩ : ∃ n', n = n' + 1 := ⟨n - 1, by omega⟩
+    rw [childEnd, h6]
+    exact ih p hp n' (by omega)
+
+open EngineT in
+theorem linksOK_of_local {s : EngineT.Store} {layers : List (List Nat)} {nodes : List Nat} {sw : Rat}
+    (L : EngineT.LocalLinks s layers nodes sw) : LinksOK s layers nodes sw := by
+  have hnd : (layers.flatten.map id).Nodup := by rw [List.map_id]; exact L.nodup
+  have hkind : ∀ {j x}, x ∈ layers.getD j [] → (x ∈ nodes ↔ (get s x).child = none) :=
+    fun hx => L.kind _ (mem_flatten_of_mem_getD hx)
+  refine ⟨L.nodup, ?_, ?_, ?_, ?_⟩
+  · intro i hi
+    obtain ⟨k, hk⟩ := exists_getD_of_mem_flatten (L.cover i hi)
+    exact ⟨k, hk, fun k' hk' => (layer_unique id layers hnd k' k i i hk' hk rfl).2⟩
+  · intro j x hx
+    cases hc : (get s x).child with
+    | none =>
+      left
+      exact ⟨(hkind hx).2 hc, by unfold isStub; rw [hc]; rfl⟩
+    | some c =>
+      right
+      refine ⟨fun hin => ?_, by unfold isStub; rw [hc]; rfl, ?_⟩
+      · rw [(hkind hx).1 hin] at hc; cases hc
+      · obtain ⟨t, h1, h2, _, _⟩ := childEnd_of_local L layers.length j x hx (by omega)
+        exact (hkind h1).2 h2
+  · intro i hi k hk
+    have hch := (hkind hk).1 hi
+    obtain ⟨c1, c2, c3⟩ := chain_of_local L k i hk
+    refine ⟨L.layerIndex k i hk, hch, c1, c2, ?_⟩
+    intro t p h
+    obtain ⟨d1, d2, d3, d4, d5⟩ := c3 t p h
+    exact ⟨d1, L.layerIndex _ p d1, d2, d3, d4, d5⟩
+  · intro j x hx hs
+    obtain ⟨t, h1, h2, h3, h4⟩ := childEnd_of_local L layers.length j x hx (by omega)
+    refine ⟨⟨t, ?_, h1, h3⟩, ?_⟩
+    · rcases Nat.eq_zero_or_pos t with h0 | h0
+      · unfold isStub at hs
+        rw [h4.1 h0] at hs
+        cases hs
+      · exact h0
+    · intro i hi k t' hk hc
+      have hlen : t' < (chainOf s k i).length := by
+        by_contra hcon
+        rw [List.getElem?_eq_none (by omega)] at hc
+        cases hc
+      rw [(chain_of_local L k i hk).1] at hlen
+      have hkl := lt_length_of_mem_getD hk
+      exact (childEnd_chain L k i hk ((hkind hk).1 hi) t' x hc layers.length (by omega)).symm
+
+end derive
+
+/-- **C04 links, end to end.**  Let `s'`, `layers` be the store and the layers the engine reports after `compute` from ANY good
+state (any stale positions / layer numbers / parent links / stale stubs).  Then
+ (a) every engine node occurs in exactly one layer, and every item of every layer is either an engine node or a stub whose
+     `child` chain ends in an engine node (no other items);
+ (b) an engine node `i` found in layer `k` has `layerIndex = k`, no `child`, and following `parent` from it gives exactly `k`
+     further nodes `p₁ … p_k`, with `p_t` in layer `k - t` (so the chain runs to the axis layer 0), `parent p_k = none`, and for
+     each `t`: `child p_t = some p_{t-1}` (`p₀ = i`), `isStub`, `ideal = ideal i`, `data = data i`, `width = stubWidth`,
+     `layerIndex = k - t`;
+ (c) conversely every stub item of layer `j` is `p_t` for exactly one engine node (the one its child chain ends in).
+(The engine's nodes after the layout are those before it; algorithm `none` only reorders its list.) -/
+theorem engine_links (e : EngineT.Engine) (s : EngineT.Store) (hg : C06.Good s e.nodes) :
+    LinksOK (EngineT.computeT e s).2 ((EngineT.computeT e s).1.layers.getD []) (EngineT.computeT e s).1.nodes
+      e.opts.stubWidth ∧
+    (∀ i, i ∈ (EngineT.computeT e s).1.nodes ↔ i ∈ e.nodes) := by
+  have hm : ∀ i, i ∈ (EngineT.computeT e s).1.nodes ↔ i ∈ e.nodes :=
+    fun i => (EngineT.computeT_nodes e s).1.mem_iff
+  exact ⟨(linksOK_of_local (EngineT.computeT_localLinks e s hg.lt hg.nodup hg.label)).congr hm, hm⟩
+
+/-- and therefore after any history of operations (new engines, re-configuration, fresh nodes, the same node objects registered
+again, computes): the `compute` that follows leaves exactly this pointer structure -/
+theorem engine_links_after_any_history (ops : List EngineT.Op) :
+    LinksOK (EngineT.World.run (ops ++ [.compute])).store
+      ((EngineT.World.run (ops ++ [.compute])).engine.layers.getD [])
+      (EngineT.World.run (ops ++ [.compute])).engine.nodes
+      (EngineT.World.run (ops ++ [.compute])).engine.opts.stubWidth := by
+  have h := (engine_links (EngineT.World.run ops).engine (EngineT.World.run ops).store (C06.world_good ops)).1
+  have e : EngineT.World.run (ops ++ [.compute]) = (EngineT.World.run ops).step .compute := by
+    unfold EngineT.World.run
+    rw [List.foldl_append]
+    rfl
+  rw [e]
+  exact h
+
+
+-- non-vacuity: a history with two computes; the second (`overlap`, 3 layers) runs on node objects that carry the parent links,
+-- layer numbers and positions of the first (`simple`, 2 layers), next to three stale stubs (ids 6–8) in the store
+def linkOps : List EngineT.Op :=
+  [.newEngine C06.staleO2, .freshNodes C06.staleLabels, .compute, .setOptions C06.staleO1]
+
+example :
+    -- before the second compute: (parent, layerIndex) of the engine's six nodes, left by the first layout …
+    (EngineT.World.run linkOps).engine.nodes.map (fun i =>
+        ((EngineT.get (EngineT.World.run linkOps).store i).parent,
+          (EngineT.get (EngineT.World.run linkOps).store i).layerIndex)) =
+      [(none, 0), (some 6, 1), (none, 0), (some 7, 1), (none, 0), (some 8, 1)] ∧
+    -- … the second compute reports three layers: the six nodes 0–5 and six new stubs 9–14 (the stale 6–8 do not occur) …
+    (EngineT.World.run (linkOps ++ [.compute])).engine.layers =
+      some [[10, 12, 13, 3, 14, 5], [9, 11, 2, 4], [0, 1]] ∧
+    -- … node 0 (layer 2) has a chain of length 2 to the axis layer, whatever the fuel …
+    chainOf (EngineT.World.run (linkOps ++ [.compute])).store 2 0 = [0, 9, 10] ∧
+    chainOf (EngineT.World.run (linkOps ++ [.compute])).store 7 0 = [0, 9, 10] ∧
+    -- … (parent, child, layerIndex, ideal, data, width) along it: stubs of the configured width 1 carrying position and payload of 0 …
+    [0, 9, 10].map (fun i =>
+        ((EngineT.get (EngineT.World.run (linkOps ++ [.compute])).store i).parent,
+          (EngineT.get (EngineT.World.run (linkOps ++ [.compute])).store i).child,
+          (EngineT.get (EngineT.World.run (linkOps ++ [.compute])).store i).layerIndex,
+          (EngineT.get (EngineT.World.run (linkOps ++ [.compute])).store i).ideal,
+          (EngineT.get (EngineT.World.run (linkOps ++ [.compute])).store i).data,
+          (EngineT.get (EngineT.World.run (linkOps ++ [.compute])).store i).width)) =
+      [(some 9, none, 2, 5, 0, 8), (some 10, some 0, 1, 5, 0, 1), (none, some 9, 0, 5, 0, 1)] ∧
+    -- … and the child chains of the stubs of layer 0 end in the nodes they stand for
+    [10, 12, 13, 14].map (childEnd (EngineT.World.run (linkOps ++ [.compute])).store 3) = [0, 1, 2, 4] := by
+  -- `List.mergeSort` does not reduce in the kernel: evaluate the equal `World.run'` (stable insertion sort)
+  rw [← EngineT.World.run'_eq]
+  decide +kernel
+
+-- the theorem applies to that history (no evaluation needed: every reachable world is good)
+example :
+    LinksOK (EngineT.World.run (linkOps ++ [.compute])).store
+      ((EngineT.World.run (linkOps ++ [.compute])).engine.layers.getD [])
+      (EngineT.World.run (linkOps ++ [.compute])).engine.nodes
+      (EngineT.World.run (linkOps ++ [.compute])).engine.opts.stubWidth :=
+  engine_links_after_any_history linkOps
 
 
 end Labella.C04
